@@ -519,6 +519,7 @@ class AxisCache:
     def nontrivial(c, res): return sum(1 for o in c['prog'] if o[0] == 'query') >= 1 and len(c['prog']) >= 3
 
 import random
+MODEL_TARGETS = ('Model/Construct.vo', 'Model/Cache.vo')
 SUITES = [Programs, Ctor, AxisCache]
 RULE = ('suite 0: random programs (length 1-8 quick, 1-25 thorough) over indexing, assignment, arithmetic, reductions, reshaping, reindexing, '
         'aligning, renaming / relabelling in place, Dataset insertion+extraction, interleaved with cache-filling queries; every DimArray '
